@@ -96,23 +96,32 @@ theorem rel_byte (pre post : List Seg) (bs : List B) (m k : Nat) (hm : m + k < b
 
 /-! ### pass 2a: `escapeAttributeAmpersands` -/
 
-def escSegs (E : Ent) : (inTag : Bool) → (quote : B) → List B → List Seg
-  | _, _, [] => []
-  | inTag, q, b :: rest =>
+def escSegs (E : Ent) : (inTag : Bool) → (quote : B) → (sk blk : Nat) → List B → List Seg
+  | _, _, _, _, [] => []
+  | inTag, q, sk + 1, blk, b :: rest => .keep [b] :: escSegs E inTag q sk blk rest
+  | inTag, q, 0, blk + 1, b :: rest =>
+    if (closer blk).isPrefixOf (b :: rest) then .keep [b] :: escSegs E inTag q 2 0 rest
+    else .keep [b] :: escSegs E inTag q 0 (blk + 1) rest
+  | inTag, q, 0, 0, b :: rest =>
     if q != 0 then
-      if b == q then .keep [b] :: escSegs E inTag 0 rest
+      if b == q then .keep [b] :: escSegs E inTag 0 0 0 rest
       else if b == amp then
-        (if entityAhead E rest then Seg.keep [b] else Seg.repl [b] ampEsc) :: escSegs E inTag q rest
-      else .keep [b] :: escSegs E inTag q rest
+        (if entityAhead E rest then Seg.keep [b] else Seg.repl [b] ampEsc) :: escSegs E inTag q 0 0 rest
+      else .keep [b] :: escSegs E inTag q 0 0 rest
+    else if b == lt && cmOpen.isPrefixOf rest then .keep [b] :: escSegs E inTag 0 3 1 rest
+    else if b == lt && cdOpen.isPrefixOf rest then .keep [b] :: escSegs E inTag 0 8 2 rest
     else
       let inTag' := if b == lt then true else if b == gt then false else inTag
       let q' := if (b == dq || b == sq) && inTag then b else 0
-      .keep [b] :: escSegs E inTag' q' rest
+      .keep [b] :: escSegs E inTag' q' 0 0 rest
 
-theorem escSegs_src (E : Ent) : ∀ (s : List B) (t : Bool) (q : B), srcOf (escSegs E t q s) = s
-  | [], _, _ => by simp [escSegs]
-  | b :: rest, t, q => by
-    unfold escSegs
+theorem escSegs_src (E : Ent) : ∀ (s : List B) (t : Bool) (q : B) (sk blk : Nat), srcOf (escSegs E t q sk blk s) = s
+  | [], _, _, sk, blk => by cases sk <;> cases blk <;> simp [escSegs]
+  | b :: rest, t, q, sk + 1, blk => by simp [escSegs, Seg.src, escSegs_src E rest]
+  | b :: rest, t, q, 0, blk + 1 => by
+    rw [escSegs]; split <;> simp [Seg.src, escSegs_src E rest]
+  | b :: rest, t, q, 0, 0 => by
+    rw [escSegs]
     by_cases hq : (q != 0) = true
     · simp only [hq, if_true]
       by_cases h1 : (b == q) = true
@@ -120,12 +129,18 @@ theorem escSegs_src (E : Ent) : ∀ (s : List B) (t : Bool) (q : B), srcOf (escS
       · by_cases h2 : (b == amp) = true
         · by_cases h3 : entityAhead E rest = true <;> simp [h1, h2, h3, Seg.src, escSegs_src E rest]
         · simp [h1, h2, Seg.src, escSegs_src E rest]
-    · simp [hq, Seg.src, escSegs_src E rest]
+    · simp only [hq, Bool.false_eq_true, if_false]
+      split
+      · simp [Seg.src, escSegs_src E rest]
+      · split <;> simp [Seg.src, escSegs_src E rest]
 
-theorem escSegs_dst (E : Ent) : ∀ (s : List B) (t : Bool) (q : B), dstOf (escSegs E t q s) = esc E t q s
-  | [], _, _ => by simp [escSegs, esc]
-  | b :: rest, t, q => by
-    unfold escSegs esc
+theorem escSegs_dst (E : Ent) : ∀ (s : List B) (t : Bool) (q : B) (sk blk : Nat), dstOf (escSegs E t q sk blk s) = esc E t q sk blk s
+  | [], _, _, sk, blk => by cases sk <;> cases blk <;> simp [escSegs, esc]
+  | b :: rest, t, q, sk + 1, blk => by simp [escSegs, esc, Seg.dst, escSegs_dst E rest]
+  | b :: rest, t, q, 0, blk + 1 => by
+    rw [escSegs, esc]; split <;> simp [Seg.dst, escSegs_dst E rest]
+  | b :: rest, t, q, 0, 0 => by
+    rw [escSegs, esc]
     by_cases hq : (q != 0) = true
     · simp only [hq, if_true]
       by_cases h1 : (b == q) = true
@@ -133,19 +148,26 @@ theorem escSegs_dst (E : Ent) : ∀ (s : List B) (t : Bool) (q : B), dstOf (escS
       · by_cases h2 : (b == amp) = true
         · by_cases h3 : entityAhead E rest = true <;> simp [h1, h2, h3, Seg.dst, escSegs_dst E rest]
         · simp [h1, h2, Seg.dst, escSegs_dst E rest]
-    · simp [hq, Seg.dst, escSegs_dst E rest]
+    · simp only [hq, Bool.false_eq_true, if_false]
+      split
+      · simp [Seg.dst, escSegs_dst E rest]
+      · split <;> simp [Seg.dst, escSegs_dst E rest]
 
-theorem escSegs_ok (E : Ent) : ∀ (s : List B) (t : Bool) (q : B), LineOk (escSegs E t q s)
-  | [], _, _ => by simp [escSegs]; exact lineOk_nil
-  | b :: rest, t, q => by
-    unfold escSegs
+theorem escSegs_ok (E : Ent) : ∀ (s : List B) (t : Bool) (q : B) (sk blk : Nat), LineOk (escSegs E t q sk blk s)
+  | [], _, _, sk, blk => by cases sk <;> cases blk <;> simp only [escSegs] <;> exact lineOk_nil
+  | b :: rest, t, q, sk + 1, blk => by
+    rw [escSegs]; exact lineOk_cons (Seg.keep_ok _) (escSegs_ok E rest _ _ _ _)
+  | b :: rest, t, q, 0, blk + 1 => by
+    rw [escSegs]; split <;> exact lineOk_cons (Seg.keep_ok _) (escSegs_ok E rest _ _ _ _)
+  | b :: rest, t, q, 0, 0 => by
+    rw [escSegs]
     by_cases hq : (q != 0) = true
     · simp only [hq, if_true]
       by_cases h1 : (b == q) = true
-      · simp only [h1, if_true]; exact lineOk_cons (Seg.keep_ok _) (escSegs_ok E rest _ _)
+      · simp only [h1, if_true]; exact lineOk_cons (Seg.keep_ok _) (escSegs_ok E rest _ _ _ _)
       · by_cases h2 : (b == amp) = true
         · simp only [h1, h2, if_true]
-          refine lineOk_cons ?_ (escSegs_ok E rest _ _)
+          refine lineOk_cons ?_ (escSegs_ok E rest _ _ _ _)
           by_cases h3 : entityAhead E rest = true
           · simp only [h3, if_true]; exact Seg.keep_ok _
           · have h3' : entityAhead E rest = false := by simpa using h3
@@ -154,8 +176,11 @@ theorem escSegs_ok (E : Ent) : ∀ (s : List B) (t : Bool) (q : B), LineOk (escS
             subst this
             show nl [amp] = nl ampEsc
             decide
-        · simp only [h1, h2]; exact lineOk_cons (Seg.keep_ok _) (escSegs_ok E rest _ _)
-    · simp only [hq]; exact lineOk_cons (Seg.keep_ok _) (escSegs_ok E rest _ _)
+        · simp only [h1, h2]; exact lineOk_cons (Seg.keep_ok _) (escSegs_ok E rest _ _ _ _)
+    · simp only [hq, Bool.false_eq_true, if_false]
+      split
+      · exact lineOk_cons (Seg.keep_ok _) (escSegs_ok E rest _ _ _ _)
+      · split <;> exact lineOk_cons (Seg.keep_ok _) (escSegs_ok E rest _ _ _ _)
 
 /-! ### pass 2b: every `strings.ReplaceAll` step -/
 
@@ -260,6 +285,68 @@ theorem replSegs_ok (old new : List B) (h : nl old = nl new) : ∀ (n : Nat) (s 
 theorem replaceAll_nl (old new : List B) (h : nl old = nl new) (s : List B) : nl (replaceAll old new s) = nl s := by
   rw [← replSegs_dst old new s.length s (Nat.le_refl _), ← lines_total _ (replSegs_ok old new h s.length s (Nat.le_refl _)),
     replSegs_src old new s.length s (Nat.le_refl _)]
+
+/-! ### pass 2b′: `replaceInMarkup` — the same outside comments and CDATA sections, which are kept -/
+
+def replSegsM (old new : List B) (s : List B) : List Seg :=
+  if hold : old = [] then [.keep s] else
+  match s with
+  | [] => []
+  | b :: rest =>
+    if hk : 0 < nonMarkupLen (b :: rest) then
+      .keep ((b :: rest).take (nonMarkupLen (b :: rest))) :: replSegsM old new ((b :: rest).drop (nonMarkupLen (b :: rest)))
+    else if old.isPrefixOf (b :: rest) then .repl old new :: replSegsM old new ((b :: rest).drop old.length)
+    else .keep [b] :: replSegsM old new rest
+termination_by s.length
+decreasing_by
+  · simp only [List.length_drop, List.length_cons]; omega
+  · have : 0 < old.length := by cases old <;> simp_all
+    simp only [List.length_drop, List.length_cons]; omega
+  · simp
+
+theorem replSegsM_all (old new : List B) (h : nl old = nl new) : ∀ (n : Nat) (s : List B), s.length ≤ n →
+    srcOf (replSegsM old new s) = s ∧ dstOf (replSegsM old new s) = replaceAllM old new s ∧ LineOk (replSegsM old new s) := by
+  intro n
+  induction n with
+  | zero =>
+    intro s hs
+    have : s = [] := List.eq_nil_of_length_eq_zero (by omega)
+    subst this
+    unfold replSegsM replaceAllM
+    by_cases ho : old = []
+    · simp only [ho, dite_true]; exact ⟨by simp [Seg.src], by simp [Seg.dst], lineOk_cons (Seg.keep_ok _) lineOk_nil⟩
+    · simp only [ho, dite_false]; exact ⟨rfl, rfl, lineOk_nil⟩
+  | succ n ih =>
+    intro s hs
+    unfold replSegsM replaceAllM
+    by_cases ho : old = []
+    · simp only [ho, dite_true]; exact ⟨by simp [Seg.src], by simp [Seg.dst], lineOk_cons (Seg.keep_ok _) lineOk_nil⟩
+    · simp only [ho, dite_false]
+      cases s with
+      | nil => exact ⟨rfl, rfl, lineOk_nil⟩
+      | cons b rest =>
+        have hpos : 0 < old.length := by cases old <;> simp_all
+        by_cases hk : 0 < nonMarkupLen (b :: rest)
+        · simp only [hk, dite_true]
+          obtain ⟨i1, i2, i3⟩ := ih ((b :: rest).drop (nonMarkupLen (b :: rest)))
+            (by simp only [List.length_drop, List.length_cons] at hs ⊢; omega)
+          refine ⟨?_, ?_, lineOk_cons (Seg.keep_ok _) i3⟩
+          · simp only [srcOf_cons, Seg.src, i1, List.take_append_drop]
+          · simp only [dstOf_cons, Seg.dst, i2]
+        · simp only [hk, dite_false]
+          by_cases hp : old.isPrefixOf (b :: rest) = true
+          · simp only [hp, if_true]
+            obtain ⟨i1, i2, i3⟩ := ih ((b :: rest).drop old.length)
+              (by simp only [List.length_drop, List.length_cons] at hs ⊢; omega)
+            refine ⟨?_, ?_, lineOk_cons h i3⟩
+            · simp only [srcOf_cons, Seg.src, i1]; exact prefix_split old _ hp
+            · simp only [dstOf_cons, Seg.dst, i2]
+          · have hp' : old.isPrefixOf (b :: rest) = false := Bool.eq_false_iff.mpr hp
+            simp only [hp', Bool.false_eq_true, if_false]
+            obtain ⟨i1, i2, i3⟩ := ih rest (by simp at hs; omega)
+            refine ⟨?_, ?_, lineOk_cons (Seg.keep_ok _) i3⟩
+            · simp only [srcOf_cons, Seg.src, i1]; rfl
+            · simp only [dstOf_cons, Seg.dst, i2]; rfl
 
 /-! ### pass 3: `wrapMJTextContent`, byte for byte -/
 
@@ -685,20 +772,20 @@ theorem strip_none (s : List B) (h : splitAtRoot s = none) : strip s = s := by u
 
 /-! ### the three passes in a row -/
 
-/-- the places related through every `ReplaceAll` step in turn -/
+/-- the places related through every `replaceInMarkup` step in turn -/
 def stepsRel : List (List B × List B) → List B → Nat → Nat → Prop
   | [], _, i, k => i = k
-  | st :: r, s, i, k => ∃ j, Rel (replSegs st.1 st.2 s) i j ∧ stepsRel r (replaceAll st.1 st.2 s) j k
+  | st :: r, s, i, k => ∃ j, Rel (replSegsM st.1 st.2 s) i j ∧ stepsRel r (replaceAllM st.1 st.2 s) j k
 
 theorem stepsRel_lines : ∀ (steps : List (List B × List B)) (s : List B) (i k : Nat),
     (∀ st ∈ steps, nl st.1 = nl st.2) → stepsRel steps s i k →
-    nl (s.take i) = nl ((steps.foldl (fun acc st => replaceAll st.1 st.2 acc) s).take k)
+    nl (s.take i) = nl ((steps.foldl (fun acc st => replaceAllM st.1 st.2 acc) s).take k)
   | [], s, i, k, _, h => by simp only [stepsRel] at h; subst h; rfl
   | st :: r, s, i, k, hs, h => by
     obtain ⟨j, h1, h2⟩ := h
-    have hok := replSegs_ok st.1 st.2 (hs st (by simp)) s.length s (Nat.le_refl _)
+    obtain ⟨a1, a2, hok⟩ := replSegsM_all st.1 st.2 (hs st (by simp)) s.length s (Nat.le_refl _)
     have e1 := rel_lines _ hok i j h1
-    rw [replSegs_src st.1 st.2 s.length s (Nat.le_refl _), replSegs_dst st.1 st.2 s.length s (Nat.le_refl _)] at e1
+    rw [a1, a2] at e1
     rw [e1, List.foldl_cons]
     exact stepsRel_lines r _ j k (fun x hx => hs x (by simp [hx])) h2
 
@@ -710,19 +797,19 @@ def preprocess (s : List B) : List B := wrap (entities (strip s))
 
 /-- the same place in the stripped text (offset `i`) and in the text handed to the decoder (offset `k`) -/
 def PipeRel (s : List B) (i k : Nat) : Prop :=
-  ∃ j1 j2, Rel (escSegs entTable false 0 (strip s)) i j1 ∧
+  ∃ j1 j2, Rel (escSegs entTable false 0 0 0 (strip s)) i j1 ∧
     stepsRel Gomjml.Gen.Parser.entityStepsB (escapeAmp (strip s)) j1 j2 ∧
     Rel (wrapSegs ((entities (strip s)).length + 1) (entities (strip s))) j2 k
 
 theorem pipe_lines (s : List B) (i k : Nat) (h : PipeRel s i k) : nl ((strip s).take i) = nl ((preprocess s).take k) := by
   obtain ⟨j1, j2, h1, h2, h3⟩ := h
-  have e1 := rel_lines _ (escSegs_ok entTable (strip s) false 0) i j1 h1
+  have e1 := rel_lines _ (escSegs_ok entTable (strip s) false 0 0 0) i j1 h1
   rw [escSegs_src, escSegs_dst] at e1
   have e2 := stepsRel_lines _ _ j1 j2 steps_no_lf h2
   have e3 := rel_lines _ (wrapSegs_ok _ _) j2 k h3
   rw [wrapSegs_src] at e3
   rw [e1]
-  have e2' : nl (List.take j1 (esc entTable false 0 (strip s))) = nl (List.take j2 (entities (strip s))) := e2
+  have e2' : nl (List.take j1 (esc entTable false 0 0 0 (strip s))) = nl (List.take j2 (entities (strip s))) := e2
   rw [e2']
   exact e3
 
